@@ -33,6 +33,13 @@ pub struct Case {
     pub prog: Prog,
     /// parameter types of the entry function `f`
     pub params: Vec<T>,
+    /// the source text when it is not the (fully parenthesised) pretty-print of `prog`
+    pub src: Option<String>,
+}
+impl Case {
+    pub fn source(&self) -> String {
+        self.src.clone().unwrap_or_else(|| pprog(&self.prog))
+    }
 }
 
 fn dom(t: &T) -> Vec<BigInt> {
@@ -71,6 +78,7 @@ fn g1(tier: Tier) -> Vec<Case> {
             name,
             prog: Prog { funcs: vec![Func { name: "f".into(), params: vec![("a".into(), t.clone(), false), ("b".into(), t.clone(), false)], ret: t.clone(), body: blk(vec![], Some(e)) }] },
             params: vec![t.clone(), t.clone()],
+            src: None,
         };
         let mut n = 0;
         // depth 1
@@ -207,6 +215,7 @@ fn g2(tier: Tier) -> Vec<Case> {
             name: format!("g2#{k}:{name}"),
             prog: Prog { funcs: vec![Func { name: "f".into(), params: vec![("a".into(), T::U8, false), ("b".into(), T::U8, false)], ret: T::U32, body: blk(body, Some(tail)) }] },
             params: vec![T::U8, T::U8],
+            src: None,
         });
     }
     out
@@ -296,7 +305,7 @@ fn g3(_tier: Tier) -> Vec<Case> {
             ];
             let mut funcs = helpers;
             funcs.push(Func { name: "f".into(), params: vec![("a".into(), T::U8, false), ("b".into(), T::U8, false)], ret: T::U32, body: blk(body, Some(res)) });
-            out.push(Case { name: format!("g3#{n}:{pn}:{cn}"), prog: Prog { funcs }, params: vec![T::U8, T::U8] });
+            out.push(Case { name: format!("g3#{n}:{pn}:{cn}"), prog: Prog { funcs }, params: vec![T::U8, T::U8], src: None });
             n += 1;
         }
     }
@@ -365,7 +374,7 @@ fn g4(tier: Tier) -> Vec<Case> {
                 body.extend(to_st(&ops[*i].1));
             }
             let name = s.iter().map(|i| ops[*i].0.clone()).collect::<Vec<_>>().join(",");
-            out.push(Case { name: format!("g4:{name}"), prog: Prog { funcs: vec![Func { name: "f".into(), params: vec![], ret: T::Felt, body: blk(body, Some(v("acc"))) }] }, params: vec![] });
+            out.push(Case { name: format!("g4:{name}"), prog: Prog { funcs: vec![Func { name: "f".into(), params: vec![], ret: T::Felt, body: blk(body, Some(v("acc"))) }] }, params: vec![], src: None });
         }
         seqs = next;
     }
@@ -417,6 +426,7 @@ fn g5(_tier: Tier) -> Vec<Case> {
                 name: format!("g5:{cn}:live={mask:04b}"),
                 prog: Prog { funcs: vec![helper.clone(), Func { name: "f".into(), params: vec![("a".into(), T::U8, false), ("b".into(), T::U8, false)], ret: T::U32, body: blk(body, Some(tail)) }] },
                 params: vec![T::U8, T::U8],
+                src: None,
             });
         }
     }
@@ -476,7 +486,7 @@ fn g6(tier: Tier) -> Vec<Case> {
                 contexts.truncate(2);
             }
             for (cn, funcs) in contexts {
-                out.push(Case { name: format!("g6:tuple{n}:{cn}:route={rs}"), prog: Prog { funcs }, params: vec![T::U8, T::U8] });
+                out.push(Case { name: format!("g6:tuple{n}:{cn}:route={rs}"), prog: Prog { funcs }, params: vec![T::U8, T::U8], src: None });
             }
         }
     }
@@ -492,19 +502,141 @@ fn g6(tier: Tier) -> Vec<Case> {
     ];
     for (bn, e) in bodies {
         let f = Func { name: "f".into(), params: vec![("a".into(), T::U8, false), ("b".into(), T::U8, false)], ret: T::S, body: blk(vec![St::Let("p".into(), false, None, mk_s()), St::LetS("m".into(), "k".into(), v("p"))], Some(e)) };
-        out.push(Case { name: format!("g6:struct:{bn}"), prog: Prog { funcs: vec![f] }, params: vec![T::U8, T::U8] });
+        out.push(Case { name: format!("g6:struct:{bn}"), prog: Prog { funcs: vec![f] }, params: vec![T::U8, T::U8], src: None });
+    }
+    out
+}
+
+// ---- G8: operator precedence and associativity -------------------------------------------------------
+// Every other family prints each binary subexpression in parentheses, so how the parser groups operators is
+// never exercised.  Here expressions are printed FLAT; the tree the source denotes is built by a precedence
+// climber written from the language reference (unary > * / % > + - > & > ^ > | > comparisons > && > ||, binary
+// operators left-associative) and evaluated by the reference evaluator.
+
+fn prec(op: Op) -> u8 {
+    match op {
+        Op::Mul | Op::Div | Op::Rem => 10,
+        Op::Add | Op::Sub => 9,
+        Op::BitAnd => 8,
+        Op::BitXor => 7,
+        Op::BitOr => 6,
+        Op::Lt | Op::Le | Op::Gt | Op::Ge | Op::Eq | Op::Ne => 5,
+        Op::And => 4,
+        Op::Or => 3,
+    }
+}
+
+/// Builds the tree of `operands[0] ops[0] operands[1] ...` (precedence climbing, left-associative).
+fn climb(operands: &[Ex], ops: &[Op]) -> Ex {
+    fn go(operands: &[Ex], ops: &[Op], pos: &mut usize, min_prec: u8) -> Ex {
+        let mut lhs = operands[*pos].clone();
+        while *pos < ops.len() && prec(ops[*pos]) >= min_prec {
+            let op = ops[*pos];
+            *pos += 1;
+            let rhs = go(operands, ops, pos, prec(op) + 1);
+            lhs = bin(op, lhs, rhs);
+        }
+        lhs
+    }
+    let mut pos = 0;
+    go(operands, ops, &mut pos, 0)
+}
+
+fn flat(operand_texts: &[String], ops: &[Op]) -> String {
+    let mut s = operand_texts[0].clone();
+    for (i, op) in ops.iter().enumerate() {
+        s.push_str(&format!(" {} {}", op.sym(), operand_texts[i + 1]));
+    }
+    s
+}
+
+fn g8(tier: Tier) -> Vec<Case> {
+    let mut out = vec![];
+    let int_ops = [Op::Add, Op::Sub, Op::Mul, Op::Div, Op::Rem, Op::BitAnd, Op::BitOr, Op::BitXor];
+    let cmp_ops = [Op::Lt, Op::Le, Op::Gt, Op::Ge, Op::Eq, Op::Ne];
+    let bool_ops = [Op::And, Op::Or, Op::BitAnd, Op::BitOr, Op::BitXor];
+    let u8t = T::U8;
+    let mk = |name: String, ret: T, lets: Vec<St>, lets_text: &str, tree: Ex, text: String| {
+        let prog = Prog { funcs: vec![Func { name: "f".into(), params: vec![("a".into(), T::U8, false), ("b".into(), T::U8, false)], ret: ret.clone(), body: blk(lets, Some(tree)) }] };
+        // the printed program: the fully parenthesised one with the body replaced by the flat text
+        let header = pprog(&Prog { funcs: vec![] });
+        let src = format!("{header}fn f(a: u8, b: u8) -> {} {{ {lets_text}{text} }}\n", ret.name());
+        Case { name, prog, params: vec![T::U8, T::U8], src: Some(src) }
+    };
+    let ints = |k: usize| -> (Vec<Ex>, Vec<String>) {
+        let pool: Vec<(Ex, String)> = vec![(v("a"), "a".into()), (v("b"), "b".into()), (l(&u8t, 6), "6_u8".into()), (l(&u8t, 3), "3_u8".into())];
+        (pool.iter().take(k).map(|p| p.0.clone()).collect(), pool.iter().take(k).map(|p| p.1.clone()).collect())
+    };
+    // two and three integer operators
+    for o1 in int_ops {
+        for o2 in int_ops {
+            let (es, ts) = ints(3);
+            out.push(mk(format!("g8:int2:{}{}", o1.sym(), o2.sym()), T::U8, vec![], "", climb(&es, &[o1, o2]), flat(&ts, &[o1, o2])));
+            if tier == Tier::Thorough {
+                for o3 in int_ops {
+                    let (es, ts) = ints(4);
+                    out.push(mk(format!("g8:int3:{}{}{}", o1.sym(), o2.sym(), o3.sym()), T::U8, vec![], "", climb(&es, &[o1, o2, o3]), flat(&ts, &[o1, o2, o3])));
+                }
+            }
+        }
+    }
+    // an integer operator on either side of a comparison
+    for o in int_ops {
+        for c in cmp_ops {
+            let (es, ts) = ints(3);
+            out.push(mk(format!("g8:int-cmp:{}{}", o.sym(), c.sym()), T::Bool, vec![], "", climb(&es, &[o, c]), flat(&ts, &[o, c])));
+            out.push(mk(format!("g8:cmp-int:{}{}", c.sym(), o.sym()), T::Bool, vec![], "", climb(&es, &[c, o]), flat(&ts, &[c, o])));
+        }
+    }
+    // boolean operators over p, q, r (and negations), and comparisons joined by logical operators
+    let lets = || vec![St::Let("p".into(), false, None, bin(Op::Lt, v("a"), v("b"))), St::Let("q".into(), false, None, bin(Op::Eq, v("a"), l(&u8t, 2))), St::Let("r".into(), false, None, bin(Op::Gt, v("b"), l(&u8t, 100)))];
+    let lets_text = "let p = a < b; let q = a == 2_u8; let r = b > 100_u8; ";
+    for o1 in bool_ops {
+        for o2 in bool_ops {
+            let es = vec![v("p"), v("q"), v("r")];
+            let ts = vec!["p".to_string(), "q".into(), "r".into()];
+            out.push(mk(format!("g8:bool2:{}{}", o1.sym(), o2.sym()), T::Bool, lets(), lets_text, climb(&es, &[o1, o2]), flat(&ts, &[o1, o2])));
+            let es = vec![Ex::Not(Box::new(v("p"))), v("q"), Ex::Not(Box::new(v("r")))];
+            let ts = vec!["!p".to_string(), "q".into(), "!r".into()];
+            out.push(mk(format!("g8:bool2-not:{}{}", o1.sym(), o2.sym()), T::Bool, lets(), lets_text, climb(&es, &[o1, o2]), flat(&ts, &[o1, o2])));
+        }
+        // equality of booleans next to a boolean operator
+        for e in [Op::Eq, Op::Ne] {
+            let es = vec![v("p"), v("q"), v("r")];
+            let ts = vec!["p".to_string(), "q".into(), "r".into()];
+            out.push(mk(format!("g8:bool-eq:{}{}", o1.sym(), e.sym()), T::Bool, lets(), lets_text, climb(&es, &[o1, e]), flat(&ts, &[o1, e])));
+            out.push(mk(format!("g8:eq-bool:{}{}", e.sym(), o1.sym()), T::Bool, lets(), lets_text, climb(&es, &[e, o1]), flat(&ts, &[e, o1])));
+        }
+    }
+    for c1 in cmp_ops {
+        for lg in [Op::And, Op::Or] {
+            for c2 in [Op::Lt, Op::Eq, Op::Ge] {
+                let es = vec![v("a"), v("b"), v("b"), l(&u8t, 6)];
+                let ts = vec!["a".to_string(), "b".into(), "b".into(), "6_u8".into()];
+                out.push(mk(format!("g8:cmp-logic-cmp:{}{}{}", c1.sym(), lg.sym(), c2.sym()), T::Bool, vec![], "", climb(&es, &[c1, lg, c2]), flat(&ts, &[c1, lg, c2])));
+            }
+        }
+    }
+    // a bitwise operator next to an equality (`a & b == 6` is `(a & b) == 6`)
+    for o in [Op::BitAnd, Op::BitOr, Op::BitXor] {
+        for e in [Op::Eq, Op::Ne, Op::Lt] {
+            let (es, ts) = ints(3);
+            out.push(mk(format!("g8:bit-eq:{}{}", o.sym(), e.sym()), T::Bool, vec![], "", climb(&es, &[o, e]), flat(&ts, &[o, e])));
+        }
     }
     out
 }
 
 pub fn all_cases(tier: Tier) -> Vec<Case> {
+    // smallest and most recently added families first: a capped run still covers them
     let mut v = vec![];
-    v.extend(g1(tier));
-    v.extend(g2(tier));
-    v.extend(g3(tier));
-    v.extend(g4(tier));
-    v.extend(g5(tier));
+    v.extend(g8(tier));
     v.extend(g6(tier));
+    v.extend(g3(tier));
+    v.extend(g5(tier));
+    v.extend(g4(tier));
+    v.extend(g2(tier));
+    v.extend(g1(tier));
     v
 }
 
@@ -524,7 +656,7 @@ fn run_all(ctx: &mut Ctx) {
         ctx.case(
             || json!({"space": "minicairo", "program": case.name}),
             |ctx| {
-                let src = pprog(&case.prog);
+                let src = case.source();
                 ctx.count("programs", 1);
                 ctx.distinct(&src);
                 ctx.sample(|| json!({"program": case.name, "source": src}));
@@ -628,7 +760,7 @@ fn run_all_and_probes(ctx: &mut Ctx) {
 pub static C01: CheckDef = CheckDef {
     id: "C01",
     level: "exploration",
-    rule: "MiniCairo families, each enumerated completely up to its bound: G1 expression trees of depth <=2 over + - * / % on u8, i8, felt252 (thorough adds u32, u128) with leaves {a, b, literals}, plus comparison/short-circuit guards of a panicking operand (evaluation order is observable through which panic fires); G2 control skeletons: nestings of depth <=2 of if / match-on-integer / while / for / loop-with-break with a 4-condition menu and a 6-effect menu (accumulate, mix, array append, early return, panic, checked subtract) plus break/continue; G3 data movement: 6 producers (struct, tuple, enum, Option, nested tuple, non-copy struct with an array) x consumers (field access, destructuring, copy, snapshot/desnap, match, unwrap, through a call); G4 every sequence of length <=2 (thorough <=3) over 23 array/dict operations (append v, pop_front, get i, at i, len, dict insert k v, dict get k; v,k,i in {0,1,2}); G5 every subset of 4 variables live across a call / a branch merge / a loop back-edge / two calls; G6 member routing: a tuple of arity 2 / 3 is destructured and a tuple of the same type rebuilt from the parts under every routing map positions->members (4 / 27 maps: all permutations and duplications) in the contexts direct, behind one call, behind two calls, one arm of a branch whose other arm is the identity, nested in an outer tuple, plus the type-correct routings of a struct with differently typed members. G7 25 feature probes outside the MiniCairo AST with hand-derived closed forms (derived PartialEq/Serde/Default/Clone, closures, if-let/while-let/let-else, ref parameters and member assignment, Option/Result combinators and `?`, evaluation order of arguments/tuple/struct members, loops with break values and continue, nested matches, shadowing/snapshots, trait dispatch with default methods, assertion panic data, ByteArray, early returns, generics, dict last-write-wins, spans, nested destructuring, compound assignment). Each program is compiled with the default configuration and with optimisations disabled and run on the full cross product of B(T) (u8: {0,1,2,127,128,254,255}; i8: {-128,-127,-1,0,1,126,127}; felt252: {0,1,2,-1,-2,2^128}). Oracle: result felts == reference evaluator's value, or panic data == the evaluator's panic data, exactly. distinct_nontrivial = distinct program texts.",
+    rule: "MiniCairo families, each enumerated completely up to its bound: G1 expression trees of depth <=2 over + - * / % on u8, i8, felt252 (thorough adds u32, u128) with leaves {a, b, literals}, plus comparison/short-circuit guards of a panicking operand (evaluation order is observable through which panic fires); G2 control skeletons: nestings of depth <=2 of if / match-on-integer / while / for / loop-with-break with a 4-condition menu and a 6-effect menu (accumulate, mix, array append, early return, panic, checked subtract) plus break/continue; G3 data movement: 6 producers (struct, tuple, enum, Option, nested tuple, non-copy struct with an array) x consumers (field access, destructuring, copy, snapshot/desnap, match, unwrap, through a call); G4 every sequence of length <=2 (thorough <=3) over 23 array/dict operations (append v, pop_front, get i, at i, len, dict insert k v, dict get k; v,k,i in {0,1,2}); G5 every subset of 4 variables live across a call / a branch merge / a loop back-edge / two calls; G6 member routing: a tuple of arity 2 / 3 is destructured and a tuple of the same type rebuilt from the parts under every routing map positions->members (4 / 27 maps: all permutations and duplications) in the contexts direct, behind one call, behind two calls, one arm of a branch whose other arm is the identity, nested in an outer tuple, plus the type-correct routings of a struct with differently typed members. G8 operator precedence and associativity: expressions printed WITHOUT parentheses - every pair (thorough: triple) of integer operators, an integer operator on either side of each comparison, every pair of boolean operators over plain and negated operands, equalities next to boolean / bitwise operators, comparisons joined by && / || - whose denoted tree is built by a precedence climber written from the language reference; G7 25 feature probes outside the MiniCairo AST with hand-derived closed forms (derived PartialEq/Serde/Default/Clone, closures, if-let/while-let/let-else, ref parameters and member assignment, Option/Result combinators and `?`, evaluation order of arguments/tuple/struct members, loops with break values and continue, nested matches, shadowing/snapshots, trait dispatch with default methods, assertion panic data, ByteArray, early returns, generics, dict last-write-wins, spans, nested destructuring, compound assignment). Each program is compiled with the default configuration and with optimisations disabled and run on the full cross product of B(T) (u8: {0,1,2,127,128,254,255}; i8: {-128,-127,-1,0,1,126,127}; felt252: {0,1,2,-1,-2,2^128}). Oracle: result felts == reference evaluator's value, or panic data == the evaluator's panic data, exactly. distinct_nontrivial = distinct program texts.",
     assumptions: &["the reference evaluator (mini.rs) is the specification for the modelled subset: checked integer arithmetic with the corelib panic strings, left-to-right evaluation, short-circuit && ||, truncating signed division", "programs outside MiniCairo are only covered differentially (C05)"],
     run: run_all_and_probes,
     stack_mb: 32,
